@@ -20,7 +20,8 @@ def demo(seed):
     dst = os.path.join(REPO, sub, "zz_seeded_demo_test.go")
     open(dst, "w").write(src)
     try:
-        rc, out = sh("go test -vet=off -count=1 -run '^(%s)$' ." % "|".join(tests), cwd=os.path.join(REPO, sub), timeout=900)
+        tags = "-tags verif " if re.search(r"^//go:build .*verif", src, re.M) else ""
+        rc, out = sh("go test %s-vet=off -count=1 -run '^(%s)$' ." % (tags, "|".join(tests)), cwd=os.path.join(REPO, sub), timeout=900)
     finally:
         os.remove(dst)
     return rc, out
